@@ -396,6 +396,54 @@ pub fn worker(wi: usize, wn: usize, tier: &str) {
             }
         }
     }
+    // large batch: a batch delete of 300 documents (a 12 KB batch append, hundreds of frames) under
+    // every single fault and under short writes that end in the middle of the batch: a failed call
+    // must leave NONE of its delete records behind
+    {
+        let cfg = BackendCfg { metric: "euclidean".into(), dim: 2, capacity: 1024, snap_interval: 0, rotation: 1 << 20, fsync: "always".into() };
+        let ctx = Ctx { cfg: &cfg, scratch: &scratch };
+        let h: Vec<Op> = (1..=300u64).map(|id| Op::Ins { id, v: vec_for(2, (id % 17) as f32 + 0.5, (id % 5) as f32 - 2.0), m: meta1("i", &id.to_string()) }).collect();
+        let op = Op::BatchDel { ids: (1..=300u64).collect() };
+        if let Some((b, _)) = run_prefix(&ctx, &h) {
+            let dir = scratch.path.join("d");
+            sc::set_root(&dir.to_string_lossy());
+            sc::ctl(sc::CMD_TRACE_CLEAR, 0, 0);
+            let _ = apply_backend(&b, &op);
+            let k_total = sc::ctl(sc::CMD_TRACE_LEN, 0, 0).unwrap_or(0);
+            let classes: Vec<i64> = (0..k_total).map(|i| sc::ctl(sc::CMD_TRACE_CLASS_AT, i, 0).unwrap_or(0)).collect();
+            sc::clear_root();
+            drop(b);
+            // (the batch is appended frame by frame: several hundred calls; every call is a fault
+            // point, shared out over the workers)
+            for k in 1..=k_total {
+                if (k as usize) % wn != wi {
+                    continue;
+                }
+                let full = classes[(k - 1) as usize];
+                let cls = full & 0xffff;
+                let here = call_label(full);
+                // ENOSPC: not retried by the WAL writer, so the call fails (a single EIO is retried
+                // successfully and the call is acknowledged)
+                for (errno, ename) in [(28i64, "ENOSPC")] {
+                    check_case(&ctx, &h, &op, true, || { sc::fault_arm(0, sc::C_ALL, k, errno, -1); }, &format!("fault:{here}|large-batch"), json!({"nth_call": k, "class": class_name(cls), "errno": ename, "batch": 300}), &mut st);
+                }
+                if cls == sc::C_WRITE && (k % 10 == 1 || k + 2 >= k_total) {
+                    for short in [7i64, 5_000] {
+                        check_case(
+                            &ctx, &h, &op, true,
+                            || {
+                                sc::fault_arm(0, sc::C_ALL, k, 0, short);
+                                sc::fault_arm(1, sc::C_WRITE | sc::C_AFTER_SLOT0, 1, 28, -1);
+                            },
+                            &format!("fault:short-{here}-then-error|large-batch"),
+                            json!({"nth_call": k, "short_len": short, "then": "ENOSPC", "batch": 300}),
+                            &mut st,
+                        );
+                    }
+                }
+            }
+        }
+    }
     sc::ctl(sc::CMD_CLOCK_MODE, 1, 0);
     vcore::par::worker_emit(&json!({
         "evals": st.evals, "failed_calls": st.failed_calls, "ok_calls": st.ok_calls, "faults_fired": st.faults_fired,
